@@ -312,7 +312,11 @@ def typed_names_scenario():
     problems = []
     for rule, names, absent in (('INT', ['1', '22', '-3'], '7'), ('FLOAT', ['1.5', '2', '3e2'], '9.5'),
                                 ('STRING', ['"a b"', "'c'", '"d\\"e"'], '"zz"'), ('NUMBER', ['1', '2.5', '30'], '4'),
-                                ('ID', ['a', 'b1', '_c'], 'zz')):
+                                ('ID', ['a', 'b1', '_c'], 'zz'),
+                                # falsy names (round 8, C07k): an object named 0 / 0.0 is a named object
+                                ('INT', ['0', '22', '-3'], '7'), ('INT', ['1', '22', '-3'], '0'),
+                                ('FLOAT', ['1.5', '0', '3e2'], '9.5'), ('FLOAT', ['1.5', '2', '3e2'], '0.0'),
+                                ('NUMBER', ['1', '2.5', '0'], '4'), ('NUMBER', ['1', '2.5', '30'], '0')):
         g = ("Model: rooms+=Room doors*=Door;\nRoom: 'room' name=%(r)s;\n"
              "Door: 'door' a=[Room:%(r)s] ('to' bs+=[Room:%(r)s][','])?;" % {'r': rule})
         mm = metamodel_from_str(g)
